@@ -10,7 +10,7 @@ from engine.expr import Ex, norm, show, walk, alts
 from engine.intervals import dominating_facts
 from engine.mir import AnchorLost, callee_matches
 from engine.paths import paths, decided, called, outcome
-from engine.query import calls_matching, where, aggregates, ret_alts, find_switch_on, switch_arms, const_assigned_in, enum_variants
+from engine.query import self_rooted, calls_matching, where, aggregates, ret_alts, find_switch_on, switch_arms, const_assigned_in, enum_variants
 from rules.shared_codec import tokens
 from rules.shared_count import count_rule
 from rules import C03, C04
@@ -179,7 +179,7 @@ def ctr_rules(facts, rep):
     pos_up = []
     cnt_up = []
     for bi, si, s in f.stmts():
-        if s["k"] == "assign" and s["place"]["l"] == 1:
+        if s["k"] == "assign" and self_rooted(f, s["place"], ex, (bi, si)):
             fp = [p.get("n") for p in s["place"]["p"] if p["k"] == "field"]
             if fp == ["pos"]:
                 pos_up.append(norm(ex.rvalue(s["rv"], (bi, si))))
